@@ -351,7 +351,7 @@ fn main() {
 RUST_EOF
 # every `pub fn mm*` of the model file must be exercised by the test program
 missing=0
-for m in $(sed -n 's/^pub fn \(mm[0-9]*_[a-z0-9_]*\).*/\1/p' "$MODELS"); do
+for m in $(sed -n 's/^ *pub fn \(mm[0-9]*_[a-z0-9_]*\).*/\1/p' "$MODELS"); do
   grep -q "\b$m\b" "$WORK/main.rs" || { echo "model $m has no differential test" >&2; missing=1; }
 done
 [ "$missing" = 0 ] || exit 2
